@@ -223,3 +223,62 @@ Example C02_ex_no_merge_full :
   readout (ring_run 5 2 [cm 100 10 T0; cm 300 30 (T0 + 20000); cm 200 20 (T0 + 10000)]) =
   [Some (mkCoff 200 20 (T0 + 10000) None); Some (mkCoff 300 30 (T0 + 20000) (Some 7))].
 Proof. vm_compute. reflexivity. Qed.
+(* ===== to append to coq/theories/props/C02.v (builder "lag", lift of C02 from one ring to storage) =====
+   Extra Require line (put it with the other Requires at the top of props/C02.v, or right here — Coq accepts it mid-file): *)
+From Coq Require Import Bool.
+From Burrow Require Import AMap Storage StorageProofs StorageWindows.
+
+(* Vocabulary.  [run cf (init_state cls) h] folds the storage handlers over a history (list of (clock, request)) from
+   the empty storage; [wf_hist h]: offsets are int64, a broker offset names a partition below the count it announces.
+   [arrivals cf cls h c g t p] (StorageWindows.v) is the spec side: the sub-sequence of h's SetConsumerOffset requests for
+   exactly (c,g,t,p) that storage did not drop on arrival — [reaches_ring]: cluster known, timestamp not older than
+   expire-group, group accepted by the allow/deny lists, a broker offset recorded for that partition — since the last
+   request that removed the partition ([resets]: DeleteTopic c t, DeleteGroup c g / c g t, the expiry purge of group g
+   inside FetchConsumer), each paired with the lag value addConsumerOffset attaches (clamped distance to the newest
+   broker offset).  The drop and purge conditions are evaluated on the model state at that point of the history
+   (the purge needs the group's lastCommit, which itself depends on earlier placements). *)
+
+(* the ring of (c,g,t,p) after any history is exactly ring_run over those arrivals *)
+Theorem C02_storage_ring_provenance :
+  forall cf cls h st reps c g t p,
+  (1 <= cf_intervals cf)%nat -> wf_hist h -> 0 <= p ->
+  run cf (init_state cls) h = Some (st, reps) ->
+  ring_of cf st c g t p = ring_run (cf_min_distance cf) (cf_intervals cf) (arrivals cf cls h c g t p).
+Proof. exact storage_ring_provenance. Qed.
+Print Assumptions C02_storage_ring_provenance.
+
+(* every partition ring of every topic of every group of every cluster of every reachable state has the C02 shape
+   (commits newest first with strictly decreasing log position, then blanks; cf_intervals slots) and that provenance *)
+Theorem C02_storage_windows_wf :
+  forall cf cls h st reps c cl g t i pr w,
+  (1 <= cf_intervals cf)%nat -> wf_hist h ->
+  run cf (init_state cls) h = Some (st, reps) ->
+  get st c = Some cl -> nth_error (cons_topic cl g t) i = Some pr -> pr_ring pr = Some w ->
+  wf (cf_intervals cf) w /\
+  w = ring_run (cf_min_distance cf) (cf_intervals cf) (arrivals cf cls h c g t (Z.of_nat i)).
+Proof. exact storage_windows_wf. Qed.
+Print Assumptions C02_storage_windows_wf.
+
+(* what a query sees: every window of every FetchConsumer reply is empty (a partition that never had a ring) or is the
+   read-out of ring_run over the arrivals, i.e. b unfilled entries then commits with strictly increasing log position,
+   cf_intervals entries in all.  Every C02 theorem about [ring_run] therefore speaks about this window. *)
+Theorem C02_storage_reply_windows :
+  forall cf cls h st reps now c g st' l t cps i cp,
+  (1 <= cf_intervals cf)%nat -> wf_hist h ->
+  run cf (init_state cls) h = Some (st, reps) ->
+  fetch_consumer cf now st c g = Done st' (RConsumer l) ->
+  In (t, cps) l -> nth_error cps i = Some cp ->
+  cp_offsets cp = [] \/
+  (cp_offsets cp = readout (ring_run (cf_min_distance cf) (cf_intervals cf) (arrivals cf cls h c g t (Z.of_nat i))) /\
+   exists b cs, cp_offsets cp = window b cs /\ (b + length cs = cf_intervals cf)%nat /\ asc cs).
+Proof. exact storage_reply_windows. Qed.
+Print Assumptions C02_storage_reply_windows.
+
+(* non-vacuity of the spec side: both commits of the out-of-order history reach the ring; and a history in which a commit
+   before any broker offset, a DeleteGroup and a too-old commit leave exactly one arrival *)
+Example C02_ex_arrivals_ooo :
+  arrivals ex_cfg [1] ex_ooo 1 1 1 0 = [(mkCommit 50 5 100000, 50); (mkCommit 40 3 99000, 60)].
+Proof. exact ex_arrivals_ooo. Qed.
+Example C02_ex_arrivals_reset :
+  wf_hist ex_reset /\ arrivals ex_cfg [1] ex_reset 1 1 1 0 = [(mkCommit 60 2 100000, 40)].
+Proof. exact ex_arrivals_reset. Qed.
